@@ -14,7 +14,7 @@ from ..simdev.base import World
 from ..simdev.bringup import BringUpDevice, Lazy, version_grid
 from ledgerblue.commException import CommException
 
-PIN_FILE = "/pin.txt"
+PIN_FILE = "/nonexistent-verif-dir/pin.txt"   # never a real path: the file lives in memfs only
 GOOD_PIN = b"abcd1234"
 DEFAULT_PIN = b"1234abcd"
 
@@ -148,9 +148,12 @@ class C09(Check):
             LPIN.random = DetRandom()
             RUN.configure_logging = lambda p: None
             SRV.socketserver = FakeSocketServerModule(record)
-            fake_os = types.SimpleNamespace(environ=environ)
+            fake_os = memfs.FakeOs(fs, environ)
             manager_ledger.os = fake_os
             manager_sgx.os = fake_os
+            for _m in (manager_ledger, manager_sgx):
+                _m.open = fs.open
+                _m.shutil = memfs.FakeShutil(fs)
             options = types.SimpleNamespace(
                 pin_file=PIN_FILE, force_pin_change=case["pin"] == "forced",
                 logconfigfilepath="x", version_one=case["v1"], host="localhost", port=9999,
